@@ -1076,10 +1076,11 @@ def oracle_bounded(seq, spec_per, want_w, res, want, ref=None, ref_name=None):
         got = [c[1] for c in got]
         kind_i = seq[i]['kind']
         if full and not due and (deliveries or kind_i == 'wrapper'):
-            bad.append(('queue.Full', 'refused-without-delivery',
-                        f'{BOUNDED}: queue.Full raised for line {i} ({kind_i} line), a line that puts nothing on the queue'
-                        + (': the wrapper is lost' if kind_i == 'wrapper' else '')))
-            break
+            if not any(b[0] == 'queue.Full' for b in bad):
+                bad.append(('queue.Full', 'refused-without-delivery',
+                            f'{BOUNDED}: queue.Full raised for line {i} ({kind_i} line), a line that puts nothing on the queue'
+                            + (': the wrapper is lost' if kind_i == 'wrapper' else '')))
+            continue            # (go on: what the refused line costs later -- a message without its wrapper, a lost message -- is a finding of its own)
         if deliveries:
             if got and not due:
                 what, mixed = whose_fragments(seq, got[0]['raw'])
